@@ -458,6 +458,13 @@ func checkC17(w *World, r *Report) {
 					r.bad("R17.1", ssaName(fn), construct, pos, msg)
 					continue
 				}
+				// no way from the call to a `return …, nil` on which this error was never looked at
+				if ci, isInstr := v.(ssa.Instruction); isInstr && len(fl.deposits) == 0 {
+					if msg := a.nilReturnUnseen(fn, ci, ev, fl); msg != "" {
+						r.bad("R17.1", ssaName(fn), construct, pos, msg)
+						continue
+					}
+				}
 				r.ok("R17.1", ssaName(fn), construct, pos, "reaches a return on every failure path", true)
 			}
 		})
@@ -1256,4 +1263,85 @@ func checkDeferredOverwrites(w *World, r *Report) {
 		})
 	}
 	r.Counts["deferred assignments of an error result"] = n
+}
+
+// nilReturnUnseen: a path leads from the call to a return whose error result is the constant nil
+// without crossing any test of the error (or of a value derived from it) and without handing the
+// error on (to a return, a collector, a wrapping call): on that path nobody knows whether the call
+// failed, and the function reports success.
+func (a *errAnalysis) nilReturnUnseen(fn *ssa.Function, call ssa.Instruction, ev ssa.Value, fl *errFlow) string {
+	ei := errResultIndex(fn.Signature)
+	if ei < 0 {
+		return ""
+	}
+	// blocks in which the error is tested or used
+	seenIn := map[*ssa.BasicBlock]bool{}
+	for v := range fl.derived {
+		if v.Referrers() == nil {
+			continue
+		}
+		for _, ref := range *v.Referrers() {
+			switch ref.(type) {
+			case *ssa.DebugRef:
+				continue
+			}
+			if ref.Block() != nil {
+				// a comparison / call / return / store that involves the error
+				if _, isPhi := ref.(*ssa.Phi); isPhi {
+					continue
+				}
+				if _, isExtract := ref.(*ssa.Extract); isExtract {
+					continue
+				}
+				seenIn[ref.Block()] = true
+			}
+		}
+	}
+	start := call.Block()
+	visited := map[*ssa.BasicBlock]bool{}
+	bad := ""
+	var dfs func(b *ssa.BasicBlock, first bool)
+	dfs = func(b *ssa.BasicBlock, first bool) {
+		if bad != "" || (visited[b] && !first) {
+			return
+		}
+		visited[b] = true
+		if seenIn[b] && !first {
+			return
+		}
+		if first && seenIn[b] {
+			// the call's own block: uses after the call in the same block count
+			for _, in := range b.Instrs[instrIndex(call)+1:] {
+				for v := range fl.derived {
+					for _, op := range in.Operands(nil) {
+						if *op == v {
+							if _, isEx := in.(*ssa.Extract); !isEx {
+								return
+							}
+						}
+					}
+				}
+			}
+		}
+		if len(b.Instrs) > 0 {
+			if ret, ok := b.Instrs[len(b.Instrs)-1].(*ssa.Return); ok {
+				res := retResults(ret)
+				if ei < len(res) && isNilConst(res[ei]) {
+					bad = a.w.posOf(ret.Pos())
+				}
+				return
+			}
+		}
+		for _, s := range b.Succs {
+			if s == start {
+				continue // round the loop to the call again: another call, another error
+			}
+			dfs(s, false)
+		}
+	}
+	dfs(start, true)
+	if bad == "" {
+		return ""
+	}
+	return "a path leads from this call to the `nil` error return at " + bad + " without any test or use of the error on the way: when the call fails on that path the function still reports success, and the failure is replaced by output"
 }
